@@ -211,6 +211,9 @@ class ZarrList(ZarrCollection, SyncedList):
 
     """
 
+    # Dict-like children are ZarrDicts, which require string keys.
+    _validators = (require_string_key,)
+
     def __init__(self, group=None, name=None, data=None, parent=None, *args, **kwargs):
         super().__init__(
             group=group, name=name, data=data, parent=parent, *args, **kwargs
